@@ -920,14 +920,25 @@ func (b *BlockWise[C]) processReceivedMessage(w *responsewriter.ResponseWriter[C
 		return fmt.Errorf("cannot get payload: %w", err)
 	}
 	off := num * szx.Size()
-	if num == 0 && payloadSize > 0 {
+	if num == 0 && joinedGuard != nil {
 		// Block 0 starts a transfer. Whatever was collected before under this token belongs to a transfer
 		// the peer has abandoned (or is a retransmission of block 0 itself): start over instead of
 		// appending later blocks to the stale head.
-		if errT := payloadFile.Truncate(0); errT != nil {
-			return fmt.Errorf("cannot truncate cached request: %w", errT)
+		if payloadSize > 0 {
+			if errT := payloadFile.Truncate(0); errT != nil {
+				return fmt.Errorf("cannot truncate cached request: %w", errT)
+			}
+			payloadSize = 0
 		}
-		payloadSize = 0
+		// ... and the message that is being assembled is the one this block 0 belongs to: its code and options
+		// (path, content format, ...) replace those of the abandoned one. Only the Observe option of the
+		// notification that started the transfer stays (the blocks that follow it are plain responses).
+		observe, errO := cachedReceivedMessage.Observe()
+		cachedReceivedMessage.ResetOptionsTo(r.Options())
+		cachedReceivedMessage.SetCode(r.Code())
+		if errO == nil && !r.HasOption(message.Observe) {
+			cachedReceivedMessage.SetObserve(observe)
+		}
 	}
 	if off == payloadSize { //nolint:nestif
 		payloadSize, err = copyToPayloadFromOffset(r, payloadFile, off)
